@@ -39,8 +39,8 @@ CLAIMED = {
  "C09": P("Random rule sets (aliases, duplicate marks/constraints, absent and own marks, priorities): an independent oracle recomputes edges, requirement check, stable priority partition and the greedy order and demands permutation, every edge respected, order = greedy order, panic iff missing requirement or no admissible order, same result on reuse; the Coq model follows compile() statement by statement and is compared on every script." + PENDING % "C09", "DESIGN.md section 6 C09", category="exploration", technique=TECH_X),
  "C10": P('Machine-checked Coq proofs over the whole-parser model: the block parser receives only the list of line texts (source positions are symbolic), the line texts are invariant under LF->CRLF, LF->CR (CR-free input) and one appended final LF (input not ending in a line ending), and the core chain reads the source through them only unless the source-position rule runs; hence for every configuration without that rule, every fuel and every input the HTML/XHTML (or error) is unchanged by the three transformations. With the source-position plugin the statement is not proved (checked by oracle). Tied to /repo on every run by the metamorphic relations on generated documents, spec inputs and constructs left open at end of input under random plugin sets, and by the model/implementation correspondence on all variants.', "DESIGN.md section 6 C10"),
  "C11": P("Payload x {fence, four-space indent, backtick span} x {top level, block quote, list item}: content field and escaped HTML equal the payload; cutws/indent unit correspondence for the tab-stop arithmetic; model/implementation correspondence." + PENDING % "C11", "DESIGN.md section 6 C11", category="exploration", technique=TECH_X),
- "C12": P("Every named reference of the implementation's table (thorough tier), numeric references over boundary/invalid code points and all 32 escapes in five contexts: decoded characters agree; escape-everything round trip on random printable lines; unescape_all / entity / code-point validity unit correspondence." + PENDING % "C12", "DESIGN.md section 6 C12", category="exploration", technique=TECH_X),
- "C13": P("Label pairs related by case and whitespace variants x use forms x definition placement x multiplicity: resolves iff equal under full case folding + whitespace collapsing, first definition wins, definitions produce no output; normalize_reference unit correspondence (tables dumped from the implementation)." + PENDING % "C13", "DESIGN.md section 6 C13", category="exploration", technique=TECH_X),
+ "C12": P("Machine-checked Coq proofs about the decoder of destinations, titles, definitions and info strings (unescape_all): every named reference of the implementation's entity table decodes to its value (finite sweep over the generated table), every well-formed numeric reference decodes to the character of its code point or U+FFFD exactly as the paragraph-text path computes it (code_to_str o numeric_code), the allowed code points are characterised, backslash + punctuation decodes to the character and any other backslash stays. NOT proved: the equality across the five contexts end to end and the escape-everything round trip; these are decided on every run by the context oracle (every table name in the thorough tier, numeric boundaries, 32 escapes x 5 contexts), the round-trip oracle and the correspondence (unesc/ent/entcode unit commands and parses).", "DESIGN.md section 6 C12"),
+ "C13": P("Machine-checked Coq proofs about label matching: normalisation (trim, collapse whitespace runs, per-character upper(lower(c)) over the case tables generated from the implementation) is idempotent (definitions normalise twice, uses once), every character has the same normal form as its lowercase and uppercase expansions (finite sweep over the tables: includes final sigma, sharp s, dotted I, ligatures, Kelvin/Angstrom/Ohm), every White_Space character counts as a space and runs collapse to a normal form; the per-document map keeps the first definition of a key. NOT proved: resolution end to end (placement anywhere in the document, the four use forms) and equality with full Unicode case folding; these are decided on every run by the resolution oracle against Python's casefold on generated label pairs x forms x placements, every case-mapped character, and the model/implementation correspondence.", "DESIGN.md section 6 C13"),
  "C14": P("Machine-checked Coq proofs, for every tree, about the clean-up pass that produces the final shape (FragmentsJoin): afterwards no node anywhere has a delimiter placeholder, an empty Text or two adjacent Text nodes among its children, all other nodes are kept in order and the text is preserved (C14_fragments_join_partial, C14_join_keeps_others, C14_join_keeps_text). The remaining clauses of the full statement (kinds per parent, Root only at the top, childless leaves, no InlineRoot) are NOT proved yet; they are decided on every run by the tree-shape oracle on the implementation's trees and by the correspondence with the whole-parser model (random plugin sets containing the paragraph rule, delimiter-heavy inputs, nesting limits).", "DESIGN.md section 6 C14"),
  "C15": CLAIMED_C15,
  "C16": P("Dual-run probe (hook): every rule is called in look-ahead mode right before its real call in both tokenizer loops and contradictions are recorded; custom block rule in both permitted look-ahead styles, first or last in the chain, after every container: identical HTML; model/implementation correspondence." + PENDING % "C16", "DESIGN.md section 6 C16", category="exploration", technique=TECH_X),
